@@ -19,9 +19,9 @@
  * usage:
  *   drv_vfiles c06   CASEFILE SEED FROM TO   cases = lines FROM..TO-1
  *   drv_vfiles c06id CASEID                  one case, regenerated from its id
- *   drv_vfiles c08   MANIFEST FROM TO        load generated spellings
- *   drv_vfiles fmt   CASEFILE FROM TO        set_format / get_format table
- *   drv_vfiles stick CASEFILE FROM TO        file type stickiness histories
+ *   drv_vfiles c08   MANIFEST SEED FROM TO   load generated spellings
+ *   drv_vfiles fmt   CASEFILE SEED FROM TO   set_format / get_format table
+ *   drv_vfiles stick CASEFILE DIR FROM TO    file type memory histories
  * env: VT_TRACE=<path> (default stdout), VFILES_TMP=<scratch directory>
  *
  * c06 case line:   type rows cols nf ext set fmt z0c prec mag
@@ -160,6 +160,42 @@ static void put_outcome(int ok, int e)
 {
     vt_put("\"ok\":%d,\"err\":\"%s\",", ok, vt_errname(e));
     vt_put_cb();
+}
+
+/*
+ * For diagnosis only (not read by the specification): the class of the last
+ * error message -- text after "error: ", digits folded to N, everything but
+ * letters and digits to '_'.
+ */
+static void put_msg_class(void)
+{
+    const char *m = vt_cb.last;
+    const char *p = strstr(m, "error: ");
+    char buf[64];
+    size_t k = 0;
+
+    if (vt_cb.n == 0) {
+	vt_put(",\"msg\":\"\"");
+	return;
+    }
+    if (p != NULL)
+	m = p + 7;
+    else if ((p = strstr(m, ": ")) != NULL)
+	m = p + 2;
+    for (; *m != '\0' && k < sizeof(buf) - 1; ++m) {
+	unsigned char c = (unsigned char)*m;
+
+	if (isdigit(c)) {
+	    if (k == 0 || buf[k - 1] != 'N')
+		buf[k++] = 'N';
+	} else if (isalpha(c)) {
+	    buf[k++] = (char)c;
+	} else if (k > 0 && buf[k - 1] != '_') {
+	    buf[k++] = '_';
+	}
+    }
+    buf[k] = '\0';
+    vt_put(",\"msg\":\"%s\"", buf);
 }
 
 /* --------------------------------------------------- projection (getters) */
@@ -362,6 +398,7 @@ static void do_load(const char *evname, const char *path, const char *name,
     }
     vt_put("{\"e\":\"%s\",", evname);
     put_outcome(rv == 0, e);
+    put_msg_class();
     vt_put(",\"ftAfter\":\"%s\",\"p\":{", ft_name(LIB(vnadata_get_filetype(v2))));
     put_projection(v2, rv == 0 && with_values);
     vt_put("}}");
@@ -682,6 +719,352 @@ static int mode_c06(const char *casefile, uint64_t seed, long from, long to)
     return 0;
 }
 
+/* ------------------------------------------------------------- C08 mode */
+
+/*
+ * Manifest line (written by families/vfiles.py from the spelling table):
+ *   idx cls var  pathA nameA setA methA  pathB nameB setB methB
+ * "-" stands for an empty name suffix.  One episode per line: the two
+ * spellings of the same content are loaded into fresh objects and their
+ * projections through the public getters recorded.
+ */
+static void c08_load(const char *which, const char *path, const char *name,
+	const char *set, const char *meth)
+{
+    vnadata_t *vdp;
+    vnadata_filetype_t ft;
+    int rv, e;
+
+    vdp = LIB(vnadata_alloc(vt_errfn, NULL));
+    if (vdp == NULL)
+	_exit(5);
+    if (ft_from_name(set, &ft) != 0)
+	_exit(4);
+    if (ft != VNADATA_FILETYPE_AUTO)
+	(void)LIB(vnadata_set_filetype(vdp, ft));
+    if (strcmp(meth, "reuse") == 0) {
+	/*
+	 * The object already holds unrelated data: another type, other
+	 * dimensions, more frequencies, per-frequency impedances and a
+	 * format of its own.  A load must replace all of it.
+	 */
+	static const double complex zz[3] = { 10.0 + 2.0 * I, 20.0, 30.0 - I };
+
+	if (LIB(vnadata_init(vdp, VPT_Z, 3, 3, 5)) != 0)
+	    _exit(7);
+	for (int f = 0; f < 5; ++f) {
+	    (void)LIB(vnadata_set_frequency(vdp, f, 1.0e3 * (f + 1)));
+	    (void)LIB(vnadata_set_fz0_vector(vdp, f, zz));
+	    for (int c = 0; c < 9; ++c)
+		(void)LIB(vnadata_set_cell(vdp, f, c / 3, c % 3, 7.0 + c + I * f));
+	}
+	(void)LIB(vnadata_set_format(vdp, "Zma,Yri"));
+    }
+    vt_cb_reset();
+    if (strcmp(meth, "fload") == 0) {
+	FILE *fp = fopen(path, "r");
+
+	if (fp == NULL)
+	    _exit(6);
+	rv = LIB(vnadata_fload(vdp, fp, name));
+	e = errno;
+	fclose(fp);
+    } else {
+	rv = LIB(vnadata_load(vdp, path));
+	e = errno;
+    }
+    vt_put("{\"e\":\"SLoad\",\"which\":\"%s\",\"meth\":\"%s\",\"set\":\"%s\",",
+	    which, meth, set);
+    put_outcome(rv == 0, e);
+    put_msg_class();
+    vt_put(",\"ftAfter\":\"%s\",\"p\":{",
+	    ft_name(LIB(vnadata_get_filetype(vdp))));
+    put_projection(vdp, rv == 0);
+    vt_put("}}");
+    vt_end_line();
+    LIBV(vnadata_free(vdp));
+}
+
+static int mode_c08(const char *manifest, const char *seed, long from, long to)
+{
+    FILE *fp = fopen(manifest, "r");
+    char line[4096];
+    long idx = 0;
+
+    if (fp == NULL) {
+	perror(manifest);
+	return 4;
+    }
+    while (fgets(line, sizeof(line), fp) != NULL) {
+	char *fld[16];
+	int n;
+
+	if (idx >= to)
+	    break;
+	if (idx < from) {
+	    ++idx;
+	    continue;
+	}
+	n = split(line, " \t\r\n", fld, 16);
+	if (n != 11) {
+	    fprintf(stderr, "bad manifest line %ld\n", idx);
+	    return 4;
+	}
+	vt_put("{\"e\":\"Reset\",\"case\":\"c08:%s:%s:%s:%s\"}", seed, fld[0],
+		fld[1], fld[2]);
+	vt_end_line();
+	c08_load("a", fld[3], fld[4], fld[5], fld[6]);
+	c08_load("b", fld[7], fld[8], fld[9], fld[10]);
+	vt_put("{\"e\":\"End\",\"live\":%ld}", vt_alloc_live);
+	vt_end_line();
+	++idx;
+    }
+    fclose(fp);
+    return 0;
+}
+
+/* --------------------------------------------- format-string grammar mode */
+
+/*
+ * Case line:  idx tok tok ...   (tokens of FileFmt!FmtTokens; "," and "x")
+ * The token sequence is rendered to a concrete string (random letter case,
+ * junk for "x") and given to vnadata_set_format on an object whose format
+ * was "Sma"; the string vnadata_get_format reports afterwards is split
+ * back into tokens by the harness (tokenise_format) and logged.
+ */
+static const char *fmt_words[] = {
+    "vswr", "zin", "prc", "prl", "src", "srl", "il", "rl", "ri", "ma", "db",
+    "s", "t", "u", "z", "y", "h", "g", "a", "b", ",", NULL
+};
+
+static void put_format_tokens(const char *str)
+{
+    char low[256];
+    size_t n = 0;
+
+    vt_put("[");
+    if (str != NULL) {
+	for (; str[n] != '\0' && n < sizeof(low) - 1; ++n)
+	    low[n] = (char)tolower((unsigned char)str[n]);
+	low[n] = '\0';
+	for (size_t i = 0, k = 0; low[i] != '\0'; ++k) {
+	    const char *hit = NULL;
+
+	    for (const char **w = fmt_words; *w != NULL; ++w) {
+		if (strncmp(&low[i], *w, strlen(*w)) == 0) {
+		    hit = *w;
+		    break;
+		}
+	    }
+	    vt_put("%s\"%s\"", k ? "," : "", hit != NULL ? hit : "x");
+	    i += hit != NULL ? strlen(hit) : 1;
+	}
+    }
+    vt_put("]");
+}
+
+static int mode_fmt(const char *casefile, uint64_t seed, long from, long to)
+{
+    FILE *fp = fopen(casefile, "r");
+    char line[1024];
+    long idx = 0;
+    static const char *junk[] = { "q", "?", "7", "w", "_", "dbm", "@" };
+
+    if (fp == NULL) {
+	perror(casefile);
+	return 4;
+    }
+    while (fgets(line, sizeof(line), fp) != NULL) {
+	char *fld[40];
+	char str[512];
+	char before[64];
+	vt_rng_t rng;
+	vnadata_t *vdp;
+	const char *after;
+	int n, rv, e;
+	size_t len = 0;
+
+	if (idx >= to)
+	    break;
+	if (idx < from) {
+	    ++idx;
+	    continue;
+	}
+	n = split(line, " \t\r\n", fld, 40);
+	vt_seed(&rng, seed * 1000003ull + (uint64_t)idx);
+	str[0] = '\0';
+	for (int i = 1; i < n; ++i) {
+	    const char *t = fld[i];
+
+	    if (strcmp(t, "x") == 0)
+		t = junk[vt_below(&rng, 7)];
+	    for (; *t != '\0' && len < sizeof(str) - 1; ++t) {
+		int c = (unsigned char)*t;
+
+		str[len++] = (char)(vt_below(&rng, 2) ? toupper(c) : c);
+	    }
+	}
+	str[len] = '\0';
+	vt_put("{\"e\":\"Reset\",\"case\":\"fmt:%llu:%ld:%s\"}",
+		(unsigned long long)seed, idx,
+		getenv("VFILES_TAG") != NULL ? getenv("VFILES_TAG") : "quick");
+	vt_end_line();
+	vdp = LIB(vnadata_alloc_and_init(vt_errfn, NULL, VPT_S, 2, 2, 1));
+	if (vdp == NULL || LIB(vnadata_set_format(vdp, "Sma")) != 0)
+	    _exit(7);
+	snprintf(before, sizeof(before), "%s", LIB(vnadata_get_format(vdp)));
+	vt_cb_reset();
+	rv = LIB(vnadata_set_format(vdp, str));
+	e = errno;
+	after = LIB(vnadata_get_format(vdp));
+	vt_put("{\"e\":\"SetFmt\",\"toks\":[");
+	for (int i = 1; i < n; ++i)
+	    vt_put("%s\"%s\"", i > 1 ? "," : "", fld[i]);
+	vt_put("],");
+	put_outcome(rv == 0, e);
+	vt_put(",\"kept\":%d,\"get\":", after != NULL &&
+		strcmp(after, before) == 0);
+	put_format_tokens(after);
+	vt_put("}");
+	vt_end_line();
+	LIBV(vnadata_free(vdp));
+	vt_put("{\"e\":\"End\",\"live\":%ld}", vt_alloc_live);
+	vt_end_line();
+	++idx;
+    }
+    fclose(fp);
+    return 0;
+}
+
+/* ------------------------------------------------- file type memory mode */
+
+/*
+ * Case line:  idx op op ...   with op = set:<ft> | load:<ext>:<kind> |
+ * save:<ext>.  Files dir/k_<kind><suffix> are prepared by the runner (the
+ * same 2-port S content as NPD, Touchstone 1 and Touchstone 2 under every
+ * extension class).  One object lives through the history.
+ */
+static const char *ext_suffix(const char *ext)
+{
+    if (strcmp(ext, "npd") == 0)	return ".npd";
+    if (strcmp(ext, "ts") == 0)		return ".ts";
+    if (strcmp(ext, "snp") == 0)	return ".s2p";
+    if (strcmp(ext, "other") == 0)	return ".dat";
+    return "";
+}
+
+static const char *sniff(const char *path)
+{
+    size_t n = 0;
+    unsigned char *b = slurp(path, &n);
+    const char *r = "none";
+
+    if (b != NULL && n >= 4) {
+	if (memcmp(b, "#NPD", 4) == 0)
+	    r = "npd";
+	else if (memcmp(b, "[Ver", 4) == 0)
+	    r = "ts2";
+	else if (b[0] == '#' || b[0] == '!')
+	    r = "ts1";
+    }
+    free(b);
+    return r;
+}
+
+static int mode_stick(const char *casefile, const char *dir, long from, long to)
+{
+    FILE *fp = fopen(casefile, "r");
+    char line[1024];
+    long idx = 0;
+
+    if (fp == NULL) {
+	perror(casefile);
+	return 4;
+    }
+    while (fgets(line, sizeof(line), fp) != NULL) {
+	char *fld[40];
+	vnadata_t *vdp;
+	int n;
+
+	if (idx >= to)
+	    break;
+	if (idx < from) {
+	    ++idx;
+	    continue;
+	}
+	n = split(line, " \t\r\n", fld, 40);
+	vt_put("{\"e\":\"Reset\",\"case\":\"stick:%s:%ld:%s\"}",
+		getenv("VFILES_SEED") != NULL ? getenv("VFILES_SEED") : "0", idx,
+		getenv("VFILES_TAG") != NULL ? getenv("VFILES_TAG") : "quick");
+	vt_end_line();
+	vdp = LIB(vnadata_alloc(vt_errfn, NULL));
+	if (vdp == NULL)
+	    _exit(5);
+	for (int i = 1; i < n; ++i) {
+	    char *part[4];
+	    char path[512];
+	    int np = split(fld[i], ":", part, 4);
+	    int rv = -1, e = 0;
+	    const char *wrote = "none";
+
+	    vt_cb_reset();
+	    if (np == 2 && strcmp(part[0], "set") == 0) {
+		vnadata_filetype_t ft;
+
+		if (ft_from_name(part[1], &ft) != 0)
+		    _exit(4);
+		rv = LIB(vnadata_set_filetype(vdp, ft));
+		e = errno;
+		vt_put("{\"e\":\"Stick\",\"op\":{\"op\":\"set\",\"ft\":\"%s\"},",
+			part[1]);
+	    } else if (np == 3 && strcmp(part[0], "load") == 0) {
+		snprintf(path, sizeof(path), "%s/k_%s%s", dir, part[2],
+			ext_suffix(part[1]));
+		rv = LIB(vnadata_load(vdp, path));
+		e = errno;
+		vt_put("{\"e\":\"Stick\",\"op\":{\"op\":\"load\",\"ext\":\"%s\","
+			"\"kind\":\"%s\"},", part[1], part[2]);
+	    } else if (np == 2 && strcmp(part[0], "save") == 0) {
+		static const double complex m[4] = { 0.1, 0.2 + 0.3 * I,
+		    0.4 - 0.1 * I, -0.5 };
+
+		snprintf(path, sizeof(path), "%s/out_%ld%s", dir,
+			(long)getpid(), ext_suffix(part[1]));
+		(void)unlink(path);
+		if (LIB(vnadata_init(vdp, VPT_S, 2, 2, 2)) != 0 ||
+			LIB(vnadata_set_frequency(vdp, 0, 1.0e9)) != 0 ||
+			LIB(vnadata_set_frequency(vdp, 1, 2.0e9)) != 0 ||
+			LIB(vnadata_set_matrix(vdp, 0, m)) != 0 ||
+			LIB(vnadata_set_matrix(vdp, 1, m)) != 0 ||
+			LIB(vnadata_set_format(vdp, "Sri")) != 0)
+		    _exit(7);
+		vt_cb_reset();
+		rv = LIB(vnadata_save(vdp, path));
+		e = errno;
+		if (rv == 0)
+		    wrote = sniff(path);
+		(void)unlink(path);
+		vt_put("{\"e\":\"Stick\",\"op\":{\"op\":\"save\",\"ext\":\"%s\"},",
+			part[1]);
+	    } else {
+		_exit(4);
+	    }
+	    put_outcome(rv == 0, e);
+	    vt_put(",\"ft\":\"%s\",\"wrote\":\"%s\",\"p\":{",
+		    ft_name(LIB(vnadata_get_filetype(vdp))), wrote);
+	    put_projection(vdp, 0);
+	    vt_put("}}");
+	    vt_end_line();
+	}
+	LIBV(vnadata_free(vdp));
+	vt_put("{\"e\":\"End\",\"live\":%ld}", vt_alloc_live);
+	vt_end_line();
+	++idx;
+    }
+    fclose(fp);
+    return 0;
+}
+
 /* ------------------------------------------------------------------ main */
 
 int main(int argc, char **argv)
@@ -707,6 +1090,16 @@ int main(int argc, char **argv)
 	}
 	run_c06(&c, seed, argv[2]);
 	return 0;
+    }
+    if (argc == 6 && strcmp(argv[1], "fmt") == 0) {
+	return mode_fmt(argv[2], strtoull(argv[3], NULL, 10),
+		atol(argv[4]), atol(argv[5]));
+    }
+    if (argc == 6 && strcmp(argv[1], "stick") == 0) {
+	return mode_stick(argv[2], argv[3], atol(argv[4]), atol(argv[5]));
+    }
+    if (argc == 6 && strcmp(argv[1], "c08") == 0) {
+	return mode_c08(argv[2], argv[3], atol(argv[4]), atol(argv[5]));
     }
     fprintf(stderr, "usage: drv_vfiles c06 CASEFILE SEED FROM TO | "
 	    "c06id CASEID\n");
